@@ -16,7 +16,8 @@ RULE = ("(a) cell sweep: every operation/assertion x operand-type combination x 
         "the taken branch, the untaken branch never raises, and in small fields the selected value is uniquely "
         "determined (unit propagation, else complete search) with the inputs pinned. (c) enforcement: for assertion "
         "kinds (as C03) under guarded(1) the satisfiable operand set equals the unguarded one; under guarded(0) every "
-        "operand value is satisfiable. (d) generated multi-statement bodies under nested guards. Non-trivial = the body "
+        "operand value is satisfiable; and when the same assertion is repeated at top level on the same operand objects "
+        "after having been made under a guard (either value) the satisfiable set is again exactly the unguarded one. (d) generated multi-statement bodies under nested guards. Non-trivial = the body "
         "raises when unguarded on these operand values (a, b, d) / every instance (c); distinct by case digest.")
 
 FALSE_MODES = ["guard0", "guard10", "guard01", "guard00"]
@@ -84,11 +85,12 @@ def sweep_shard(cells, b, p):
                 args = [(t, "priv", v) for t, v in zip(ts, vals)]
                 cfg = {"p": p, "b": b, "r": 2, "ignore": False}
                 res = {}
-                for mode in ["normal"] + TRUE_MODES + FALSE_MODES:
+                for mode in ["normal"] + TRUE_MODES + FALSE_MODES + ["ignore", "ignore+guard1", "ignore+guard11"]:
                     prog = opgrid.single(cfg, name, args, mode)
                     m = ir.run_program(prog)
+                    ng = len(mode.split("guard")[1]) if "guard" in mode else 0
                     res[mode] = (prog, consistent(m) if (m.raised is None and mode in FALSE_MODES) else None,
-                                 outcome(m, len(prog["stmts"]) - 1 if mode == "normal" else len(args) + len(mode) - 5))
+                                 outcome(m, len(args) + ng))
                 runs.append((vals, res))
             supported = any(r["normal"][2][0] == "ok" for _, r in runs)
             for vals, res in runs:
@@ -100,6 +102,15 @@ def sweep_shard(cells, b, p):
                     if out[0] != normal[0] or (out[0] == "ok" and out[1] != normal[1]) or (out[0] == "raise" and out[1] != normal[1]):
                         report("%s.%s.true-guard-not-transparent" % (name, ts), prog,
                                "%s%r on %s: unguarded gives %r, under %s gives %r" % (name, tuple(vals), ts, normal[:2], mode, out[:2]))
+                # the user's own ignore_errors(True) must stay in force under a true guard
+                ign = res["ignore"][2]
+                for mode in ("ignore+guard1", "ignore+guard11"):
+                    prog, m, out = res[mode]
+                    stats.case([name, ts, [str(v) for v in vals], mode], invalid_here, ("mode:" + mode,), sample_cap=1)
+                    if out[0] != ign[0] or (out[0] == "ok" and out[1] != ign[1]) or (out[0] == "raise" and out[1] != ign[1]):
+                        report("%s.%s.true-guard-not-transparent-under-ignore_errors" % (name, ts), prog,
+                               "%s%r on %s with ignore_errors(True): unguarded gives %r, under a true guard (%s) gives %r" % (
+                                   name, tuple(vals), ts, ign[:2], mode, out[:2]))
                 for mode in FALSE_MODES:
                     prog, m, out = res[mode]
                     stats.case([name, ts, [str(v) for v in vals], mode], invalid_here, ("mode:" + mode, "op:" + name), sample_cap=1)
@@ -276,12 +287,12 @@ def enforce_shard(items, p, b):
     ks = {k.name: k for k in c03.kinds(b)}
     for name, prm in items:
         kind = ks[name]
-        for gval in (1, 0):
-            case = {"part": "enforce", "kind": name, "param": prm, "p": p, "b": b, "g": gval}
-            msg = enforce_case(kind, prm, p, b, gval, stats)
-            stats.case(case, True, ("enforce:g%d" % gval,), sample_cap=2)
+        for gval, then_top in ((1, False), (0, False), (0, True), (1, True)):
+            case = {"part": "enforce", "kind": name, "param": prm, "p": p, "b": b, "g": gval, "then_top": then_top}
+            msg = enforce_case(kind, prm, p, b, gval, stats, then_top)
+            stats.case(case, True, ("enforce:g%d%s" % (gval, "+top" if then_top else ""),), sample_cap=2)
             if msg:
-                key = "%s.enforce-g%d" % (name, gval)
+                key = "%s.enforce-g%d%s" % (name, gval, "+top" if then_top else "")
                 if key in known:
                     stats.excluded[key] += 1
                 elif key not in found:
@@ -290,7 +301,9 @@ def enforce_shard(items, p, b):
     return stats
 
 
-def enforce_case(kind, prm, p, b, gval, stats=None):
+def enforce_case(kind, prm, p, b, gval, stats=None, then_top=False):
+    """then_top: the assertion is first made under guarded(gval) and then AGAIN, on the same operand objects,
+    at top level: whatever happened under the guard, the top-level assertion must be enforced (S == A)"""
     lim = 1 << b
     if kind.nops == 1:
         window = [(v,) for v in range(-(p // 2), p // 2 + 1)]
@@ -311,6 +324,8 @@ def enforce_case(kind, prm, p, b, gval, stats=None):
                 kind.call(ns, ops, prm)
             else:
                 ns.rt.guarded(g)(lambda: kind.call(ns, ops, prm))()
+                if then_top:
+                    kind.call(ns, ops, prm)
         except Exception as e:
             return None, None, e
         return rec.snapshot(), opvars, None
@@ -327,7 +342,7 @@ def enforce_case(kind, prm, p, b, gval, stats=None):
         if tr is not None:
             trace, opvars = tr, ov
             break
-        elif gval == 0 and A:
+        elif gval == 0 and A and not then_top:
             return "%s[%s] raised %s: %s under a false guard for operand %r" % (kind.name, prm, type(e).__name__, e, vals)
     if trace is None:
         return None
@@ -341,6 +356,11 @@ def enforce_case(kind, prm, p, b, gval, stats=None):
             continue
         if sat:
             S.add(vals)
+    if then_top:
+        if S != A:
+            d = sorted(S ^ A, key=lambda v: tuple(abs(x) for x in v))
+            return "%s[%s] asserted under guarded(%d) and then again at top level on the same objects: satisfiable operand set differs from the unguarded accepted set at %r (%d values)" % (kind.name, prm, gval, d[0], len(d))
+        return None
     if gval == 1 and S != A:
         d = sorted(S ^ A, key=lambda v: tuple(abs(x) for x in v))
         return "%s[%s] under guarded(1): satisfiable operand set differs from the unguarded accepted set at %r (%d values)" % (kind.name, prm, d[0], len(d))
@@ -431,7 +451,7 @@ def replay(case):
         prm = case["param"]
         if isinstance(prm, list):
             prm = tuple(prm)
-        return enforce_case(ks[case["kind"]], prm, case["p"], case["b"], case["g"])
+        return enforce_case(ks[case["kind"]], prm, case["p"], case["b"], case["g"], None, case.get("then_top", False))
     m = ir.run_program(case)
     if m.raised is not None:
         return "raised %s: %s at %r" % (type(m.raised[1]).__name__, m.raised[1], m.raised[0])
